@@ -681,8 +681,9 @@ int main(int argc, char** argv) {
   uint64_t nstates = merged_count(state_tab, state_bits);
   if (vf_the_check.states_counter) nstates = tot[vf_the_check.states_counter - 1];
   uint64_t nout = merged_count(out_tab, OUT_BITS);
+  int states_lb = 0;
   for (int w = 0; w < nworkers; w++)
-    if (S->w[w].state_full) vf_not_exhaustive("distinct-state table overflowed (state count is a lower bound)");
+    if (S->w[w].state_full) states_lb = 1; /* the distinct-state set overflowed: the reported count is a lower bound (the enumeration itself is unaffected) */
 
   for (int k = 0; k < nknown; k++)
     if (S->known_hits[k])
@@ -709,6 +710,7 @@ int main(int argc, char** argv) {
     fprintf(f, ",\n  \"states\": %llu,\n  \"transitions\": %llu,\n  \"traces_validated_against_impl\": %llu,\n",
             (unsigned long long)nstates, (unsigned long long)tot[VC_TRANS], (unsigned long long)tot[VC_TRACES]);
     fprintf(f, "  \"distinct_outcomes\": %llu,\n", (unsigned long long)nout);
+    if (states_lb) fprintf(f, "  \"states_is_lower_bound\": true,\n");
     fprintf(f, "  \"exhaustive\": %s,\n", S->not_exhaustive ? "false" : "true");
     if (S->not_exhaustive) {
       fprintf(f, "  \"cap_hit\": ");
